@@ -667,19 +667,24 @@ pub fn direct_oracle(script: &str, trace: &str) -> Vec<String> {
                 v.push(format!("c13-transfer-after-remote-detach: a transfer was written at step {} although the peer detached the link at step {}", i, at));
             }
         }
-        // ... and the error it carried is what the caller of the next link operation gets
+        // ... and the error it carried is what the caller of the next link operation gets (a call that is pending
+        // when the detach arrives completes in that very step: it is that next operation)
+        if *e == "pde" && peer_attached && attaches > detaches_before_step {
+            peer_det_err = true;
+        }
         if peer_det_err && !det_err_reported && !rx {
             for tok in st.split_whitespace() {
-                if tok.starts_with("send=") || tok.starts_with("det=") || tok.starts_with("cls=") {
+                // the clause is about detach() / close(), and about a send() that takes the peer's detach in; a send()
+                // whose pending outcome is failed by the closing detach (LinkStateError(IllegalState)) has not looked at
+                // the detach: the error is then due at the next operation (the send()'s own error is judged by C14)
+                let consumed_by_send = tok.starts_with("send=") && tok.contains("Remote");
+                if consumed_by_send || tok.starts_with("det=") || tok.starts_with("cls=") {
                     det_err_reported = true;
                     if !tok.contains("RemoteClosedWithError") && ends == 0 {
                         v.push(format!("c13-peer-detach-error-lost: the peer closed the link with an error but the call returned {}", tok));
                     }
                 }
             }
-        }
-        if *e == "pde" && peer_attached && attaches > detaches_before_step {
-            peer_det_err = true;
         }
         if rx {
             let toks: Vec<&str> = st.split_whitespace().collect();
